@@ -293,4 +293,99 @@ theorem wf_prune (d : Doc) (h : WF d) : WF (pruneObjects d).1 := by
     exact sorted_foldl_remove _ _ (traverse_sorted _ _ _ h.2)
 
 
+
+theorem wf_setObj (d : Doc) (k : ObjId) (v : Obj) (h : WF d) : WF { d with objects := d.objects.set k v } :=
+  ⟨fun q hq => h.1 q (by simpa only [set_isSome] using hq), Objects.sorted_set _ _ _ h.2⟩
+
+theorem wf_removeAnnot (id : ObjId) (pages : List ObjId) (d : Doc) (h : WF d) : WF (removeAnnot id pages d).1 := by
+  induction pages generalizing d with
+  | nil => exact h
+  | cons p rest ih =>
+    simp only [removeAnnot]
+    split
+    · exact h
+    · split
+      · split
+        · exact ih _ (wf_setObj d _ _ h)
+        · exact h
+      · exact h
+
+theorem wf_writeLoc (d : Doc) (loc : ResLoc) (v : Obj) (h : WF d) : WF { d with objects := writeLoc d.objects loc v } := by
+  unfold writeLoc
+  cases loc with
+  | obj id => exact wf_setObj d id v h
+  | entry t =>
+    simp only
+    split
+    · exact wf_setObj d t _ h
+    · exact h
+
+theorem wf_getOrCreateResources (d : Doc) (pg : ObjId) (h : WF d) (d1 : Doc) (loc : ResLoc)
+    (hg : getOrCreateResources d pg = some (d1, loc)) : WF d1 := by
+  unfold getOrCreateResources at hg
+  split at hg
+  · cases hg
+  · simp only at hg
+    split at hg
+    · simp only [Option.map_eq_some_iff] at hg
+      obtain ⟨t, _, he⟩ := hg; cases he; exact h
+    · split at hg
+      · cases hg
+      · split at hg
+        · split at hg
+          · cases hg; exact h
+          · cases hg; exact wf_setObj d _ _ h
+        · cases hg
+
+theorem wf_addXObject (d : Doc) (pg : ObjId) (name : Bytes) (xid : ObjId) (h : WF d) : WF (addXObject d pg name xid).1 := by
+  unfold addXObject
+  split
+  · exact h
+  · rename_i d1 loc hg
+    have h1 := wf_getOrCreateResources d pg h d1 loc hg
+    split
+    · simp only
+      split
+      · split
+        · exact h1
+        · split
+          · exact wf_setObj d1 _ _ h1
+          · exact h1
+      · exact wf_writeLoc d1 loc _ h1
+      · exact h1
+    · exact h1
+
+theorem wf_addGraphicsState (d : Doc) (pg : ObjId) (name : Bytes) (gid : ObjId) (h : WF d) : WF (addGraphicsState d pg name gid).1 := by
+  unfold addGraphicsState
+  split
+  · exact h
+  · rename_i d1 loc hg
+    have h1 := wf_getOrCreateResources d pg h d1 loc hg
+    split
+    · simp only
+      split
+      · exact wf_writeLoc d1 loc _ h1
+      · exact h1
+    · exact h1
+
+theorem wf_changeContentStream (f : Bytes → Bytes) (d : Doc) (sid : ObjId) (c : Bytes) (h : WF d) :
+    WF (changeContentStream f d sid c) := by
+  unfold changeContentStream
+  split
+  · exact wf_setObj d _ _ h
+  · exact h
+
+theorem wf_changePageContent (f : Bytes → Bytes) (d : Doc) (pg : ObjId) (c : Bytes) (h : WF d) (d' : Doc) (out : Out)
+    (hs : changePageContent f d pg c = .ok (d', out)) : WF d' := by
+  unfold changePageContent at hs
+  split at hs
+  · cases hs; exact h
+  · cases hs; exact wf_changeContentStream f d _ c h
+  · cases hs; exact wf_changeContentStream f d _ c h
+  · cases hs; exact h
+  · split at hs
+    · cases hs
+    · cases hs; exact wf_setDictEntry _ _ _ _ (wf_addObject d _ h)
+  · cases hs; exact h
+
 end Lopdf
